@@ -263,6 +263,26 @@ static T1 c16_value(Rng& rng, int cls) {
     case 2: return rng.logu<T1>(std::is_same_v<T1, float> ? 100 : 200, std::is_same_v<T1, float> ? 126 : 1000, true);   // huge
     case 3: return rng.logu<T1>(std::is_same_v<T1, float> ? -140 : -1070, std::is_same_v<T1, float> ? -120 : -140, true);  // tiny / subnormal after narrowing
     case 4: return rng.coin() ? static_cast<T1>(0) : -static_cast<T1>(0);
+    case 6: {
+      // next to the midpoint of two adjacent floats (or doubles): rounding in two steps through an intermediate
+      // type lands on the tie and then goes to even, a direct cast does not
+      if constexpr (std::is_same_v<T1, long double>) {
+        if (rng.coin()) {
+          const float f = rng.logu<float>(-20, 20, true);
+          const long double mid = (static_cast<long double>(f) + static_cast<long double>(std::nextafter(f, f > 0 ? 3e38f : -3e38f))) / 2;
+          return mid * (1.0L + (rng.coin() ? 1 : -1) * std::ldexp(1.0L, -rng.range(55, 62)));
+        }
+        const double d = rng.logu<double>(-20, 20, true);
+        const long double mid = (static_cast<long double>(d) + static_cast<long double>(std::nextafter(d, d > 0 ? 1e308 : -1e308))) / 2;
+        return rng.coin() ? mid : std::nextafter(mid, rng.coin() ? 1e4000L : -1e4000L);
+      } else if constexpr (std::is_same_v<T1, double>) {
+        const float f = rng.logu<float>(-20, 20, true);
+        const double mid = (static_cast<double>(f) + static_cast<double>(std::nextafter(f, f > 0 ? 3e38f : -3e38f))) / 2;
+        return rng.coin() ? mid : std::nextafter(mid, rng.coin() ? 1e308 : -1e308);
+      } else {
+        return rng.mantissa<T1>();
+      }
+    }
     default: return rng.mantissa<T1>() * (rng.coin() ? 1 : -1);
   }
 }
@@ -288,7 +308,7 @@ static void c16_pair(Reporter& R, const std::string& name, uint64_t id) {
     guarded(R, key, [&] {
       for (int rep = 0; rep < reps; ++rep) {
         std::array<T1, N> a;
-        const int cls = direction ? (rep % 2 ? 0 : 5) : rep % 6;
+        const int cls = direction ? (rep % 2 ? 0 : 5) : rep % 7;
         for (auto& v : a) v = c16_value<T1>(rng, cls);
         if (direction && rep % 7 == 0) a.fill(0);  // the zero direction stays zero
         const Q1 q1 = V1::make(a);
@@ -507,6 +527,67 @@ static void c17_type(Reporter& R, const std::string& name, uint64_t id) {
   R.count(std::string("c17_types_") + Num<T>::name);
 }
 
+// C17 for the value shapes themselves: every named setter / mutable reference writes exactly the number that
+// the accessor of the same name reads, and changes nothing else (symmetric aliases yx, zx, zy map onto xy, xz, yz)
+template <typename S, typename F>
+static void c17_component(Reporter& R, const std::string& key, const char* comp, int slot, Rng& rng, F&& apply) {
+  using T = typename View<S>::T;
+  constexpr size_t N = View<S>::n;
+  std::array<T, N> a;
+  for (size_t i = 0; i < N; ++i) a[i] = rng.logu<T>(-20, 20, true);
+  S s = View<S>::make(a);
+  const T v = rng.logu<T>(-20, 20, true);
+  const T read = apply(s, v);
+  const auto after = View<S>::arr(s);
+  R.eval();
+  bool ok = same_bits(read, v);
+  for (size_t i = 0; i < N; ++i) ok = ok && same_bits(after[i], static_cast<int>(i) == slot ? v : a[i]);
+  if (!ok) {
+    R.violation(key + "|" + comp, J().s("component", comp).i("expected_slot", slot).num("written", v).num("read_back", read)
+                                      .raw("before", jarr(a)).raw("after", jarr(after)).str());
+  }
+}
+
+#define C17_COMP(S, COMP, SLOT)                                                                                               \
+  c17_component<S>(R, key + "|Set", #COMP, SLOT, rng, [](S& s, T v) { s.Set_##COMP(v); return s.COMP(); });                      \
+  c17_component<S>(R, key + "|Mutable", #COMP, SLOT, rng, [](S& s, T v) { s.Mutable_##COMP() = v; return s.COMP(); });
+
+template <typename T>
+static void c17_shapes(Reporter& R, uint64_t id) {
+  Rng rng(mix(mix(g_args->seed, 0xC175), mix(id, Num<T>::idx)));
+  const int reps = static_cast<int>(g_args->n("probes", g_args->thorough() ? 400 : 100));
+  using PV = PhQ::PlanarVector<T>;
+  using VV = PhQ::Vector<T>;
+  using SD = PhQ::SymmetricDyad<T>;
+  using DD = PhQ::Dyad<T>;
+  for (int rep = 0; rep < reps; ++rep) {
+    {
+      const std::string key = std::string("C17|PlanarVector|") + Num<T>::name;
+      R.crumb(key);
+      C17_COMP(PV, x, 0) C17_COMP(PV, y, 1)
+    }
+    {
+      const std::string key = std::string("C17|Vector|") + Num<T>::name;
+      R.crumb(key);
+      C17_COMP(VV, x, 0) C17_COMP(VV, y, 1) C17_COMP(VV, z, 2)
+    }
+    {
+      const std::string key = std::string("C17|SymmetricDyad|") + Num<T>::name;
+      R.crumb(key);
+      C17_COMP(SD, xx, 0) C17_COMP(SD, xy, 1) C17_COMP(SD, xz, 2) C17_COMP(SD, yx, 1) C17_COMP(SD, yy, 3)
+      C17_COMP(SD, yz, 4) C17_COMP(SD, zx, 2) C17_COMP(SD, zy, 4) C17_COMP(SD, zz, 5)
+    }
+    {
+      const std::string key = std::string("C17|Dyad|") + Num<T>::name;
+      R.crumb(key);
+      C17_COMP(DD, xx, 0) C17_COMP(DD, xy, 1) C17_COMP(DD, xz, 2) C17_COMP(DD, yx, 3) C17_COMP(DD, yy, 4)
+      C17_COMP(DD, yz, 5) C17_COMP(DD, zx, 6) C17_COMP(DD, zy, 7) C17_COMP(DD, zz, 8)
+    }
+  }
+  for (const char* sh : {"PlanarVector", "Vector", "SymmetricDyad", "Dyad"}) R.nontrivial(hash_str(std::string("C17|shape|") + sh + Num<T>::name));
+  R.count(std::string("c17_shape_component_probes_") + Num<T>::name, reps);
+}
+
 // ------------------------------------------------------------------------------------------------
 template <template <typename> class QT>
 static void visit(Reporter& R, const char* name, uint64_t id) {
@@ -556,6 +637,13 @@ void VERIF_THIS_PART(Reporter& R, const Args& A) {
 #if VERIF_PART == 1 || VERIF_PARTS == 1
   visit_extra<PhQ::SymmetricDyad>(R, "SymmetricDyad", 202, true);
   visit_extra<PhQ::Dyad>(R, "Dyad", 203, true);
+#endif
+#if VERIF_PART == 3 || VERIF_PARTS == 1
+  if (g_prop == "C17" && A.mine(207)) {
+    c17_shapes<float>(R, 207);
+    c17_shapes<double>(R, 207);
+    c17_shapes<long double>(R, 207);
+  }
 #endif
 #if VERIF_PART == 2 || VERIF_PARTS == 1
   visit_extra<ModelSolid>(R, "ConstitutiveModel::ElasticIsotropicSolid", 204, false);
